@@ -154,8 +154,7 @@ func runC04(c *core.Ctx) {
 			ok = l != nil && l.RangeOver != nil && paramOf(l.RangeOver, fn, 0)
 			why = "the loop is not an ascending range over the receiver"
 			if ok {
-				idx := &ir.Term{Op: "bin", Aux: "+", Args: sorted2(an.Start[h].Reg(l.Phi), ir.Const("1"))}
-				elem := &ir.Term{Op: "load", Aux: "0", Args: []*ir.Term{{Op: "iaddr", Args: []*ir.Term{l.RangeOver, idx}}}}
+				elem := l.Elem(an)
 				nilAtom := &ir.Term{Op: "bin", Aux: "==", Args: sorted2(ir.Nil, elem)}
 				nCall := 0
 				for _, p := range an.Segs[h] {
